@@ -155,6 +155,73 @@ def m_try_into_usize(ex, st, callee, args, dty, site):
 
 
 NOTU8 = r"(?!u8>)"
+def m_slice_iter(ex, st, callee, args, dty, site):
+    """<[T]>::iter over a modelled list: a borrowing view of it"""
+    try:
+        n = list_node(ex, args[0])
+    except Exception:
+        return NotImplemented
+    if not is_list(n):
+        return NotImplemented
+    it = Node(ex.ctx.fresh_name("sliceiter"), "Iter")
+    it.variant = ("sliceiter", 0)
+    it.kids["of"] = Node(it.name + ".of", None)
+    it.kids["of"].val = Ptr(n)
+    return it
+
+
+def m_filter(ex, st, callee, args, dty, site):
+    it = args[0]
+    if not (isinstance(it, Node) and isinstance(it.variant, tuple) and it.variant[0] == "sliceiter"):
+        return NotImplemented
+    f = Node(ex.ctx.fresh_name("filter"), "Filter")
+    f.variant = ("filter", 0)
+    f.kids["it"] = it
+    c = Node(f.name + ".pred", None)
+    if isinstance(args[1], Node):
+        ex.write(c, args[1])
+    else:
+        c.val = args[1]
+    f.kids["pred"] = c
+    f.kids["pred_src"] = Node(f.name + ".pred_src", None)
+    f.kids["pred_src"].val = Opaque(z3.Const("closure_of:" + callee, OBJ))
+    return f
+
+
+def _is_result_test(body):
+    """a closure whose whole body is `Result::is_err(*arg)` / `Result::is_ok(*arg)` (returns 'is_err' / 'is_ok'), else None"""
+    calls = [b.term for b in body.blocks.values() if b.term and b.term[0] == "call"]
+    if len(calls) != 1:
+        return None
+    m = re.match(r"^Result::<.*>::(is_err|is_ok)$", calls[0][2])
+    others = [st for b in body.blocks.values() for st in b.stmts if st[0] == "assign" and st[2][0] not in ("use", "ref")]
+    return m.group(1) if m and not others and len(body.blocks) <= 3 else None
+
+
+def m_filter_count(ex, st, callee, args, dty, site):
+    """Filter<slice::Iter, |e| e.is_err() / e.is_ok()>::count(): the number of entries whose discriminant says so"""
+    f = args[0]
+    if not (isinstance(f, Node) and isinstance(f.variant, tuple) and f.variant[0] == "filter"):
+        return NotImplemented
+    mcl = re.search(r"\{closure@[^}]*\}", callee)
+    body = None
+    if mcl:
+        probe = Opaque(z3.Const("const:ZeroSized: " + mcl.group(0), OBJ))
+        body = ex.closure_body(probe, near=site[1].name if site and len(site) > 1 and hasattr(site[1], "name") else None)
+    which = _is_result_test(body) if body is not None else None
+    if which is None:
+        return NotImplemented
+    lst = ex.pointee(f.kids["it"].kids["of"]) if hasattr(ex, "pointee") else f.kids["it"].kids["of"].val.node
+    total = z3.BitVecVal(0, 64)
+    for el in elems(lst):
+        v = ex.read_node(el)
+        if not isinstance(v, Node):
+            return NotImplemented
+        d = ex.discr_of(v)
+        total = total + z3.If(d == (1 if which == "is_err" else 0), z3.BitVecVal(1, 64), z3.BitVecVal(0, 64))
+    return total
+
+
 LIST_MODELS = [
     (r"^Vec::<" + NOTU8 + r".*>::(new|with_capacity)$", m_new),
     (r"^<Vec<" + NOTU8 + r".*> as Default>::default$", m_new),
@@ -170,9 +237,13 @@ LIST_MODELS = [
     (r"^<std::ops::Range<(u64|usize|u32)> as Clone>::clone$", m_range_clone),
     (r"^<std::ops::Range<(u64|usize|u32)> as Iterator>::next$", m_range_next),
     (r"^<u64 as TryInto<usize>>::try_into$", m_try_into_usize),
+    (r"^core::slice::<impl \[" + NOTU8 + r".*\]>::iter$", m_slice_iter),
+    (r"^<std::slice::Iter<'_, .*> as Iterator>::filter::<", m_filter),
+    (r"^<Filter<std::slice::Iter<'_, .*>, \{closure@.*\}> as Iterator>::count$", m_filter_count),
 ]
 LIST_DOC = [
     "Vec<T> (T != u8) is a list of concrete length per path: new/with_capacity/push/len/is_empty/into_iter/IntoIter::next/deref",
     "<[T]>::get_mut(idx): forks over idx == i for every position and idx >= len",
+    "<[T]>::iter().filter(|e| e.is_err() | e.is_ok()).count() over a modelled list: the number of entries with that discriminant (any other predicate: uninterpreted)",
     "Range<u64|usize>::next: Some(start) and start += 1 while start < end (solver-decided), else None; u64 -> usize try_into is Ok (64-bit target)",
 ]
